@@ -122,7 +122,12 @@ let mobs_str = function
 
 let mst_model (a : ostring list) : ostring list =
   let ops = List.map parse_mop a in
-  if not (mops_ok [] ops) then failwith "operation sequence outside the domain (receiver name re-used with another topic / option)";
+  (* the two domains of the refinement theorems: a name keeps one topic and one option (C19_refines), or the whole sequence is on
+     one topic with names and options free per receiver (C19_refines_single_topic) *)
+  let one_topic = (match List.filter_map (function MSend (t, _) -> Some t | MNewReceiver (_, t, _, _) -> Some t | _ -> None) ops with
+    | t :: _ -> single_topic t ops
+    | [] -> true) in
+  if not (mops_ok [] ops || one_topic) then failwith "operation sequence outside the domain (receiver name re-used with another topic / option, on several topics)";
   let r = List.map mobs_str (rref_run rstream0 ops) and m = List.map mobs_str (mmem_run mstream0 ops) in
   if r <> m then failwith "extracted MemStreamer and RefStream disagree (contradicts Streams refinement theorem)";
   r
